@@ -24,6 +24,9 @@ type Violation struct {
 	Key string `json:"key"`
 	// Msg is the human readable description (observed vs expected).
 	Msg string `json:"msg"`
+	// Fatal: the process cannot go on after this violation (e.g. goroutines of the code under test
+	// are spinning forever); the side file is written and the process exits at once.
+	Fatal bool `json:"fatal,omitempty"`
 }
 
 func (v *Violation) String() string { return v.Key + ": " + v.Msg }
@@ -332,6 +335,11 @@ func (p Prop[C]) RunOne(c C) *Violation {
 	v := filter(p.ID, p.Run(c))
 	if v != nil {
 		writeViolation(p.ID, p.Test, c, v)
+		if v.Fatal {
+			fmt.Printf("VIOLATION-DETAIL property=%s %s\n", p.ID, v)
+			DumpAll()
+			os.Exit(1)
+		}
 	}
 	return v
 }
@@ -398,6 +406,11 @@ func (p Prop[C]) Check(t *testing.T) {
 		v := filter(p.ID, p.Run(c))
 		if v != nil {
 			writeViolation(p.ID, p.Test, c, v)
+			if v.Fatal {
+				fmt.Printf("VIOLATION-DETAIL property=%s %s\n", p.ID, v)
+				DumpAll()
+				os.Exit(1)
+			}
 			rt.Fatalf("VIOLATION-DETAIL property=%s %s", p.ID, v)
 		}
 	})
